@@ -31,6 +31,38 @@ def admin_test_fns(prog):
     return out
 
 
+def admin_edges(prog, f, admin_fns, admin_res):
+    """edges of f taken only when the local admin test held: the true side of a boolean admin test, or the success side of a
+    checked call to a helper that cannot return Ok unless the test held"""
+    edges = set()
+    for g in f.live_calls():
+        ts = prog.call_targets(g)
+        if any(t.path in admin_fns for t in ts):
+            edges |= A.bool_true_edges(f, g)
+        if ts and all(t.path in admin_res for t in ts):
+            edges |= A.success_edges(f, [g])
+    return edges
+
+
+def admin_result_fns(prog, admin_fns):
+    """Result-returning mdk-core functions whose every Ok return lies behind an admin-true edge (fixpoint over helpers of helpers)"""
+    res = set()
+    changed = True
+    while changed:
+        changed = False
+        for g in prog.nontest_fns(("mdk_core",)):
+            if g.is_closure() or g.path in res or "Result<" not in (g.ret or ""):
+                continue
+            edges = admin_edges(prog, g, admin_fns, res)
+            if not edges:
+                continue
+            r = A.reach_without_edges(g, 0, edges, A.err_exit_blocks(g))
+            if not any(g.term(b)["k"] == "return" for b in r):
+                res.add(g.path)
+                changed = True
+    return res
+
+
 def entries_of(prog, f):
     ls = [e.label() for e in prog.nontest_fns(("mdk_core",)) if K.api_boundary(e) and last_seg(e.self_adt) == "MDK" and f.path in prog.reachable([e])]
     return sorted(set(ls))
@@ -365,12 +397,11 @@ def clause_sender_side(prog, rep):
     admin_fns = admin_test_fns(prog)
     sinks = A.sink_sites(prog, lambda c: K.is_mls_call(c, *BUILDERS), core)
     rep.floor("sender-admin-guard", "MlsGroup commit builders (add/remove/update extensions)", len(sinks), 3)
+    admin_res = admin_result_fns(prog, admin_fns)
+    rep.extra["admin_guard_helpers"] = sorted(prog.fns[p].label() for p in admin_res)
     for c in sinks:
         def test(f, bb):
-            gcs = [x for x in f.live_calls() if any(t.path in admin_fns for t in prog.call_targets(x))]
-            edges = set()
-            for g in gcs:
-                edges |= A.bool_true_edges(f, g)
+            edges = admin_edges(prog, f, admin_fns, admin_res)
             return bool(edges) and bb not in A.reach_without_edges(f, 0, edges)
         for entry in entries_of(prog, c.fn):
             # per public entry: context restricted to that entry's extent
